@@ -7,6 +7,7 @@ reachable states (route without repeats, visited mask = set of the route, positi
 import JumanjiModel.Env.TSP.Lemmas
 import JumanjiModel.Env.TSP.Bounds
 import JumanjiModel.Env.TSP.SmallLemmas
+import JumanjiModel.Env.TSP.GenLemmas
 open Jm TSP
 
 namespace Props.C01
@@ -92,6 +93,35 @@ theorem tsp_complete_is_solution (n : Nat) (D : Dist) (pen : Rat) (dense : Bool)
     (hf : Feasible n s) (hl : legal s a) (hlast : (step n D pen dense s a).2.stepType = .last) :
     IsSolution n (step n D pen dense s a).1 :=
   TSP.complete_is_solution n D pen dense s a hf hl hlast
+/-- whole episodes: from ANY feasible state, along ANY sequence of cities each of which is legal when its turn
+comes, the state after every prefix is feasible — in particular no city is on the route twice -/
+theorem tsp_feasible_along_from (n : Nat) (D : Dist) (pen : Rat) (dense : Bool) (s : State) (as : List Nat)
+    (hf : Feasible n s) (hal : AllLegal n D pen dense s as) (k : Nat) :
+    Feasible n (play n D pen dense s (as.take k)).1 := TSP.feasible_along n D pen dense s as hf hal k
+
+/-- whole episodes from ANY generated instance (any `n`, any draw `u` of the generator — no condition on the
+coordinates is needed), along ANY mask-respecting sequence (`AllMasked`: each city has its bit set in the action
+mask of the observation current at its turn): after every prefix the state is feasible, no city has been served
+twice, and exactly as many cities are served as moves were made -/
+theorem tsp_feasible_along (n : Nat) (D : Dist) (pen : Rat) (dense : Bool) (u : List (List Rat)) (as : List Nat)
+    (hm : AllMasked n D pen dense (generate n u) as) (k : Nat) :
+    Feasible n (play n D pen dense (generate n u) (as.take k)).1 ∧
+    (route (play n D pen dense (generate n u) (as.take k)).1).Nodup ∧
+    (play n D pen dense (generate n u) (as.take k)).1.numVisited = (as.take k).length := by
+  have hal := (TSP.allMasked_iff n D pen dense as _).1 hm
+  have hf0 : Feasible n (generate n u) := TSP.reset_feasible n u
+  have hf := TSP.feasible_along n D pen dense _ as hf0 hal k
+  refine ⟨hf, hf.2.2.2.2.1, ?_⟩
+  rw [TSP.play_numVisited n D pen dense _ _ hf0 (TSP.allLegal_take n D pen dense as _ k hal)]
+  simp [generate]
+
+/-- mask-respecting = legal at every turn -/
+theorem tsp_allMasked_iff_allLegal (n : Nat) (D : Dist) (pen : Rat) (dense : Bool) (s : State) (as : List Nat) :
+    AllMasked n D pen dense s as ↔ AllLegal n D pen dense s as := TSP.allMasked_iff n D pen dense as s
+
+-- a mask-respecting complete episode on a generated 3-city instance
+example : AllMasked 3 [[0, 1, 2], [1, 0, 1], [2, 1, 0]] (-5) true (generate 3 [[0, 0], [1/2, 0], [3/4, 0]]) [1, 0, 2] := by
+  simp only [AllMasked]; decide +kernel
 end Props.C06
 
 namespace Props.C08
@@ -201,6 +231,29 @@ theorem tsp_step_eq_spec_all (n : Nat) (D : Dist) (pen : Rat) (dense : Bool) (s 
     step n D pen dense s (a : Int) = stepSpec n D pen dense s a :=
   TSP.step_eq_spec_all n D pen dense s a hw hf hrun ha
 end Props.C09
+
+namespace Props.C10
+/-- `UniformGenerator`, transliterated with its draw as parameter (`generate n u`, `u` = the array
+`jax.random.uniform` returned): for EVERY `n` and EVERY valid draw (`n` rows of 2 numbers with `0 ≤ x < 1`) the
+generated state satisfies the certificate `GenCert`: `n` rows of 2 coordinates in `[0, 1)`, nothing visited,
+position −1, trajectory all −1, `num_visited` 0.  `tsp.instance` evaluates `GenCert` on the implementation's reset
+states (key `generate_cert`). -/
+theorem tsp_generate_cert (n : Nat) (u : List (List Rat)) (h : validUniform n u) : GenCert n (generate n u) :=
+  TSP.generate_cert n u h
+
+/-- `reset` returns the generated state unchanged -/
+theorem tsp_reset_eq_generate (n : Nat) (u : List (List Rat)) : (reset n u).1 = generate n u := rfl
+
+/-- certificate ⇒ advertised invariants: the state IS `generate n` of a valid draw; its coordinates lie in the
+declared box; it is the documented fresh state (`InstanceOK`) and a feasible empty tour -/
+theorem tsp_cert_sound (n : Nat) (s : State) (h : GenCert n s) :
+    s = generate n s.coords ∧ validUniform n s.coords ∧ validDraw n s.coords ∧ InstanceOK n s ∧ Feasible n s :=
+  ⟨TSP.cert_eq_generate n s h, TSP.cert_sound n s h⟩
+
+example : validUniform 3 [[0, 0], [1/2, 0], [3/4, 999/1000]] := by decide +kernel
+/-- the bound is strict: a coordinate equal to 1 is not a valid draw -/
+example : ¬ validUniform 1 [[0, 1]] := by decide +kernel
+end Props.C10
 
 namespace Props.C11
 /-- a step that does not end the episode visits one more city and leaves cities to visit; with
